@@ -59,7 +59,7 @@ P = {
     "C15": ("proof", "Full for the model: for all texts get_grammar_hash = remainder of the first `// @sha256 ` line inside the leading `//` block, else None (C15_spec); for every emitted module get_grammar_hash(render m) = the digest in the header (C15_roundtrip) and the build-script freshness test succeeds iff the digests are equal (C15_fresh). "
             "SHA-256 itself is a parameter: the real header is compared with hashlib on every generated output.",
             "§7 C15", "specification + round-trip theorems + hashlib"),
-    "C16": ("proof", "Theorems: tokenize = Spec.scan (C08), and the scanner specification skips a White_Space character (any of the 25) and a `//` comment up to and including its newline, or up to the end of the input, without producing a token (C16_skip_whitespace, C16_skip_comment, C16_trailing_comment). "
+    "C16": ("proof", "Theorems: tokenize = Spec.scan (C08), and the scanner specification skips a White_Space character (any of the 25) and a `//` comment up to and including its newline, or up to the end of the input, without producing a token (C16_skip_whitespace, C16_skip_comment, C16_trailing_comment); the scanner is translation invariant — the same characters at another offset give the same tokens with positions moved by the difference (C16_translation_invariant) — so leading layout changes nothing but positions (C16_leading_whitespace). "
             "Partial: that the later stages depend on token positions only through error positions (the relabelling lemma) is not a theorem; every base file is compared with random re-layouts (all 25 White_Space characters, CR/LF, comments) modulo digest and position→token-index map.",
             "§7 C16", "scanner theorems + re-layout differential"),
     "C17": ("proof", "Theorems, for every validated file for which the generator stages succeed: the item sets of the generated automaton, lookaheads included, are exactly the least fixed point of the LALR(1) propagation rules over its transition graph — augmented initial item with end of input; [B → ·γ, b] for every b ∈ FIRST(β a) in the state of [A → α·Bβ, a]; the dot moved along transitions, contributions of all predecessor states united (C17_items_exact); no two states have the same core and transitions are functional (C17_one_state_per_core); an ACTION cell is non-error iff an item of its state demands it there (reduce exactly on the item's lookaheads, accept on end of input, shift to the transition target), GOTO cells are exactly the nonterminal transitions, Err/None elsewhere (C17_cells, C17_empty_table). The FIRST map used by the rules is proved closed under the FIRST equations (complete) and sound (every terminal in FIRST(B) begins a sentential form derived from B; nullable marks are true). "
